@@ -16,6 +16,8 @@ pub enum ClassItem {
 pub enum Node {
     /// a literal byte (printed as a char, escaped, or \xHH)
     Lit(u8),
+    /// a non-ASCII character written as itself in the pattern (outside classes): its UTF-8 bytes, as one unit
+    Char(char),
     Any,
     Class { neg: bool, items: Vec<ClassItem> },
     Group(Vec<Vec<Node>>),
@@ -67,6 +69,7 @@ fn lit_text(b: u8, in_class: bool, out: &mut String) {
 fn node_text(n: &Node, out: &mut String) {
     match n {
         Node::Lit(b) => lit_text(*b, false, out),
+        Node::Char(c) => out.push(*c),
         Node::Any => out.push('.'),
         Node::Class { neg, items } => {
             out.push('[');
@@ -284,6 +287,14 @@ fn ends_node(n: &Node, hay: &[u8], s: &PosSet, m: Mode) -> PosSet {
     let after = |p: usize| p < hay.len() && is_word(hay[p]);
     match n {
         Node::Lit(b) => step(hay, s, |x| x == *b || (m.ci && swap_case(x) == *b)),
+        Node::Char(c) => {
+            // byte-oriented, non-Unicode: exactly these bytes (no case folding beyond ASCII)
+            let mut cur = s.clone();
+            for b in c.to_string().bytes() {
+                cur = step(hay, &cur, |x| x == b);
+            }
+            cur
+        }
         Node::Any => step(hay, s, |x| m.dotall || x != b'\n'),
         Node::Class { neg, items } => step(hay, s, |x| (class_has(items, x) || (m.ci && class_has(items, swap_case(x)))) != *neg),
         Node::Perl(k, neg) => step(hay, s, |x| {
@@ -379,7 +390,8 @@ fn gen_class(ch: &mut Choices<'_>) -> Node {
 
 fn gen_atom(ch: &mut Choices<'_>, depth: usize) -> Node {
     let deep = if depth > 0 { 2 } else { 0 };
-    match ch.weighted(&[16, 4, 6, deep * 2, 3, deep]) {
+    match ch.weighted(&[16, 4, 6, deep * 2, 3, deep, 2]) {
+        6 => Node::Char(*ch.pick(&['\u{e9}', '\u{df}', '\u{20ac}', '\u{1f622}', '\u{c4}', '\u{80}', '\u{ff}', '\u{3a9}'])),
         0 => Node::Lit(gen_lit(ch)),
         1 => Node::Any,
         2 => gen_class(ch),
@@ -450,6 +462,7 @@ pub fn gen_sample(rx: &Rx, ch: &mut Choices<'_>) -> Vec<u8> {
     fn expand_node(n: &Node, ch: &mut Choices<'_>, out: &mut Vec<u8>) {
         match n {
             Node::Lit(b) => out.push(*b),
+            Node::Char(c) => out.extend(c.to_string().bytes()),
             Node::Any => out.push(*ch.pick(b"aZ0 \xff\r\x00\x0b\x85")),
             Node::Class { neg, items } => {
                 if *neg {
